@@ -158,11 +158,16 @@ func sortStrings(xs []string) {
 	}
 }
 
-// templateMayBeHuge: the template contains an amplifier applied to a large literal (repeat with a count
-// of 7+ digits, or ^ with such an exponent) — the result is then large by construction.
+// templateMayBeHuge: the template contains an amplifier applied to a large literal: repeat with a count of 7+
+// digits, or something raised to a positive power of 7+ digits (`2 ^ 999999999`, `"-5" ^ 2147483648`) unless the base
+// is a literal below 1 (`0.1 ^ 2000000000`: an error value, and before the repair a tiny number) — negative
+// powers are never counted: their results are small.  The result is then large by construction.
+var hugePowerRE = regexp.MustCompile(`\^\s*["(]*[0-9]{7,}`)
+var smallBaseRE = regexp.MustCompile(`(^|[^0-9])0\.[0-9]+"?\)?\s*\^`)
+
 func templateMayBeHuge(tpl string) bool {
 	if !bigLiteralRE.MatchString(tpl) {
 		return false
 	}
-	return strings.Contains(tpl, "repeat(") || strings.Contains(tpl, "^")
+	return strings.Contains(tpl, "repeat(") || (hugePowerRE.MatchString(tpl) && !smallBaseRE.MatchString(tpl))
 }
